@@ -199,7 +199,7 @@ def sortNat (l : List Nat) : List Nat := l.foldl (fun acc x => (acc.filter (· <
 
 def outcomeStr (stopped : Bool) (denied : List Nat) (stopc : Nat) : String :=
   let pass := if stopped then denied.dropLast else denied
-  (if stopped then (if stopc == 2 then "F" else "C") else "G") ++ ".".intercalate ((sortNat pass).map toString)
+  (if stopped then (if stopc == 2 then "F" else "C") else "G") ++ ".".intercalate ((sortNat (dedup pass)).map toString)
 
 /-- ideal module: per (product, rule, key) the ideal one-key limiter, no dictionaries -/
 structure IRule where
